@@ -1,10 +1,9 @@
 //go:debug asynctimerchan=0
-package ptracker
+package pauditd
 
 import (
 	"fmt"
 	"os"
-	"runtime/pprof"
 	"testing"
 
 	"github.com/metal-toolbox/audito-maldito/internal/verif/mc"
@@ -25,17 +24,18 @@ func TestCheck(t *testing.T) {
 	if prop == "" {
 		t.Skip()
 	}
-	if f := os.Getenv("VERIF_CPUPROFILE"); f != "" {
-		fh, _ := os.Create(f)
-		_ = pprof.StartCPUProfile(fh)
-		defer func() { pprof.StopCPUProfile(); fh.Close() }()
-	}
 	run := mc.Start(prop)
 	switch prop {
-	case "C01", "C02", "C04", "C09", "C16", "C10":
-		exitCode = runBFS(run)
-	case "C03":
-		exitCode = runConc(run)
+	case "C14":
+		exitCode = runC14(t, run)
+	case "C15":
+		exitCode = runC15(t, run)
+	case "C16":
+		exitCode = runC16b(t, run)
+	case "C13":
+		exitCode = runC13(t, run)
+	case "C10":
+		exitCode = runC10b(t, run)
 	default:
 		fmt.Println("unknown property", prop)
 	}
